@@ -114,7 +114,7 @@ def norm(path):
 REL_PATHS_LINK = ["d/link/../f", "./d/link/../f"]
 
 
-def eval_add(rel, absolute):
+def eval_add(rel, absolute, supplied=None):
     """Checksums.add with the value computed from the file below root_dir.  Layout: f, d/f, e/f all differ; d/x is a directory,
     d/link is a symlink to ../e/sub - the checksum belongs to the file the NORMALISED relative path names."""
     ti = TI.build(TI.seed_src())
@@ -129,9 +129,9 @@ def eval_add(rel, absolute):
             with open(os.path.join(tmp, p), "wb") as f:
                 f.write(blob)
         arg = os.path.join(tmp, rel) if absolute else rel
-        r = call(ti.checksums.add, arg, "sha256", None, tmp)
+        r = call(ti.checksums.add, arg, "sha256", supplied, tmp)
         table = {k.replace(tmp, "<root>"): list(v) for k, v in ti.checksums.checksums.items()}
-        want = {} if absolute else {norm(rel): ["sha256", hashlib.sha256(files[norm(rel)]).hexdigest()]}
+        want = {} if absolute else {norm(rel): ["sha256", supplied or hashlib.sha256(files[norm(rel)]).hexdigest()]}
         return {"result": "ok" if r[0] == "ok" else r[1], "keys": sorted(table), "table_is_expected": table == want}
     finally:
         shutil.rmtree(tmp, ignore_errors=True)
@@ -164,6 +164,28 @@ def eval_section(shapes):
     if r[0] != "ok":
         return {"load": r[1]}
     return {"load": "ok", "table": {k: list(v) for k, v in ti.checksums.checksums.items()}}
+
+
+LEGACY_PATHS = ["images/boot.iso", "x86_64/os/images/boot.iso", "os/images/boot.iso", "/mnt/tree/x86_64/os/images/pxeboot/vmlinuz",
+                "/abs/images/efiboot.img", "./images/product.img"]
+LEGACY_EXPECT = {"images/boot.iso": "images/boot.iso", "x86_64/os/images/boot.iso": "x86_64/os/images/boot.iso",
+                 "os/images/boot.iso": "os/images/boot.iso", "/mnt/tree/x86_64/os/images/pxeboot/vmlinuz": "images/pxeboot/vmlinuz",
+                 "/abs/images/efiboot.img": "abs/images/efiboot.img", "./images/product.img": "./images/product.img"}
+
+
+def eval_legacy_section(paths):
+    """a pre-productmd tree: only ABSOLUTE checksum paths are rewritten (cut after /os/, or the leading slash dropped)"""
+    import productmd.treeinfo as pt
+    digests = {p: hashlib.sha256(p.encode()).hexdigest() for p in paths}
+    text = "[general]\nfamily = Foo\nversion = 1\narch = x86_64\nvariant = Server\n\n[checksums]\n" + \
+        "".join("%s = %s\n" % (p, digests[p]) for p in paths)
+    ti = pt.TreeInfo()
+    r = call(ti.loads, text)
+    if r[0] != "ok":
+        return {"load": r[1]}
+    want = {LEGACY_EXPECT[p]: ["sha256", digests[p]] for p in paths}
+    got = {k: list(v) for k, v in ti.checksums.checksums.items()}
+    return {"load": "ok", "keys": sorted(got), "each_path_has_its_own_digest": got == want}
 
 
 # ---- (iii) add_checksum histories --------------------------------------------------------------
@@ -212,6 +234,7 @@ def units(tier, seed):
     sizes = SIZES if tier == "thorough" else SIZES[:8]
     us = [("digest", a, sizes) for a in algos()]
     us.append(("paths",))
+    us.append(("legacy-sections",))
     n = 2 if tier == "quick" else 3
     names = sorted(SHAPES)
     for first in names:
@@ -256,23 +279,36 @@ def run_unit(unit, acc):
                     acc.nontriv((size, algo, j, s))
         acc.sample({"size": sizes[-1], "algorithm": algo, "read_schedule": "read #1 returns 1 byte"}, limit=2)
     elif k == "paths":
-        for rel in REL_PATHS + REL_PATHS_LINK:
-            o = eval_add(rel, False)
+        for rel, supplied in [(r, None) for r in REL_PATHS + REL_PATHS_LINK] + [(r, "5" * 64) for r in REL_PATHS]:
+            o = eval_add(rel, False, supplied)
             acc.ev()
             if o != {"result": "ok", "keys": [norm(rel)], "table_is_expected": True}:
-                acc.violation("path", {"kind": "add", "rel": rel, "absolute": False}, o,
+                acc.violation("path", {"kind": "add", "rel": rel, "absolute": False, "supplied": supplied}, o,
                               "Checksums.add(%r): %s (expected the digest of the file %r recorded under that key)" % (rel, o, norm(rel)))
             else:
                 acc.outcome("path:normalised")
             acc.nontriv(("path", rel))
-        for rel in ("f", "d/f"):
-            o = eval_add(rel, True)
+        for rel, supplied in (("f", None), ("d/f", None), ("f", "5" * 64)):
+            o = eval_add(rel, True, supplied)
             acc.ev()
             if o != {"result": "ValueError", "keys": [], "table_is_expected": True}:
-                acc.violation("path-absolute", {"kind": "add", "rel": rel, "absolute": True}, o,
+                acc.violation("path-absolute", {"kind": "add", "rel": rel, "absolute": True, "supplied": supplied}, o,
                               "Checksums.add(absolute path) -> %s, expected ValueError and nothing recorded" % (o,))
             else:
                 acc.outcome("path:absolute-refused")
+    elif k == "legacy-sections":
+        for n in (1, 2, 3):
+            for paths in itertools.permutations(LEGACY_PATHS, n):
+                if len({LEGACY_EXPECT[p] for p in paths}) < len(paths):
+                    continue
+                o = eval_legacy_section(list(paths))
+                acc.ev()
+                acc.nontriv(("legacy", paths))
+                if o != {"load": "ok", "keys": sorted(LEGACY_EXPECT[p] for p in paths), "each_path_has_its_own_digest": True}:
+                    acc.violation("legacy-section", {"kind": "legacy-section", "paths": list(paths)}, o,
+                                  "pre-productmd [checksums] %s loads as %s" % (list(paths), o))
+                else:
+                    acc.outcome("section:loaded")
     elif k == "sections":
         _, first, n = unit
         names = sorted(SHAPES)
@@ -322,7 +358,9 @@ def replay(case):
     if k == "digest":
         return eval_digest(case["size"], case["algo"], case["k"], case["short"])
     if k == "add":
-        return eval_add(case["rel"], case["absolute"])
+        return eval_add(case["rel"], case["absolute"], case.get("supplied"))
+    if k == "legacy-section":
+        return eval_legacy_section(case["paths"])
     if k == "section":
         return eval_section(case["shapes"])
     return eval_add_checksum(case["hist"])
